@@ -1,5 +1,5 @@
 """C18 - decorators are transparent: same results, same signature, no double wrapping; getcallargs; cache; try_*; kwargs_support."""
-import inspect, itertools, copy
+import inspect, itertools, copy, collections
 from .. import proto
 from ..proto import enc
 from ..engine import Finding
@@ -272,9 +272,30 @@ def seq_twin(rng, v):
     return v
 
 
+class D2(dict):
+    """a dict subclass whose constructor is not `one mapping`"""
+    def __init__(self, x, extra):
+        super(D2, self).__init__(x)
+        self.extra = extra
+
+
+class L1(list):
+    """a list subclass whose constructor is not `one iterable`"""
+    def __init__(self, n):
+        super(L1, self).__init__(range(n))
+
+
 def mark(v):
-    """sets / arrays -> the marker strings of the wire"""
+    """sets / arrays / container subclasses -> the marker strings of the wire"""
     import numpy as np
+    # subclasses of dict / list with a constructor of their own (round j6): `~dd:n` = defaultdict(int, x=n), `~d2:n` = D2({'x': n}, 'e'),
+    # `~l1:n` = L1(n) = [0..n-1].  An argument that comes back as ANOTHER class (or without its attributes) is marked differently
+    if type(v) is collections.defaultdict:
+        return '~dd:%d' % v['x'] if list(v) == ['x'] and v.default_factory is int else '~dd?:%r' % (v,)
+    if type(v) is D2:
+        return '~d2:%d' % v['x'] if list(v) == ['x'] and getattr(v, 'extra', None) == 'e' else '~d2?:%r' % (v,)
+    if type(v) is L1:
+        return '~l1:%d' % len(v) if list(v) == list(range(len(v))) else '~l1?:%r' % (v,)
     if isinstance(v, (set, frozenset)):
         return '~set:' + ','.join(str(int(x)) for x in sorted(v))
     if isinstance(v, np.ndarray):
@@ -291,6 +312,12 @@ def mark(v):
 
 def unmark(v, rng=None):
     import numpy as np
+    if isinstance(v, str) and v.startswith('~dd:'):
+        return collections.defaultdict(int, x=int(v[4:]))
+    if isinstance(v, str) and v.startswith('~d2:'):
+        return D2({'x': int(v[4:])}, 'e')
+    if isinstance(v, str) and v.startswith('~l1:'):
+        return L1(int(v[4:]))
     if isinstance(v, str) and v.startswith('~set:'):
         xs = [int(x) for x in v[5:].split(',') if x]
         return set(reversed(xs))
@@ -354,7 +381,7 @@ def gen_cache(rng, raising=False, unhashable=False):
     return dict(tag='cache history len=%d%s%s' % (len(hist), ' raising' if raising else '', ' set/ndarray arguments' if unhashable else ''), lines=[line])
 
 
-def gen_stackhist(rng):
+def gen_stackhist(rng, subclasses=False):
     """a history of calls through a decorator stack that (mostly) contains a cache layer: replies and the number of executions
     of f after every call.  == twins, positional-vs-keyword variants (loops above the cache merges them), raising and invalid
     calls (try_value with repeat re-runs the layers below; the cache re-evaluates a raising function), undeclared keywords,
@@ -363,9 +390,11 @@ def gen_stackhist(rng):
                       (['a'], [DEFAULTS[0]], None, 'kw'), (['a', 'b', 'c'], [DEFAULTS[0], DEFAULTS[1]], None, None),
                       (['a', 'axis'], [0], None, None)])
     params, defaults, va, vk = sig
-    others = [c for c in CLASSES if c != 'cache_func']
+    others = [c for c in CLASSES if c != 'cache_func' and not (subclasses and c == 'loops')]        # loops on a list / dict SUBCLASS loops over it: C19
     classes = rng.sample(others, rng.choice([0, 1, 1, 2, 2, 3]))
-    with_cache = rng.random() < 0.9
+    if subclasses and 'pd2np' not in classes and rng.random() < 0.6:
+        classes.append('pd2np')
+    with_cache = rng.random() < (0.4 if subclasses else 0.9)
     if with_cache:
         classes.append('cache_func')
     if rng.random() < 0.15 and classes:
@@ -380,6 +409,12 @@ def gen_stackhist(rng):
     for _ in range(rng.choice([1, 2, 3])):
         a, k = rng.choice(calls)
         val = lambda: (rng.choice(['~arr:1,2', '~arr:f:1,2', '~arr:3']) if arrays and rng.random() < 0.4 else rng.choice([0, 1, 2, 2.5, True, 'x', None, -3]))
+        if subclasses:
+            # round j6: arguments that are dict / list SUBCLASSES whose constructor is not "one mapping / one iterable" (defaultdict, D2, L1),
+            # bare, inside a list / tuple / dict, positional or by keyword: an argument is only passed through, the call is valid for f
+            sub = lambda: rng.choice(['~dd:1', '~dd:2', '~d2:1', '~l1:3'])
+            plain = val
+            val = lambda: (rng.choice([sub(), sub(), [sub(), 7], (sub(),), {'p': sub()}]) if rng.random() < 0.6 else plain())
         pool.append(([val() for _ in a], {n: val() for n in k}))
     hist = []
     kinds = set()
@@ -408,8 +443,9 @@ def gen_stackhist(rng):
             kinds.add('maybe-invalid')
         hist.append((a, k))
     line = '(deco stackhist %s %s %s)' % (sig_enc(sig), decos_enc(ds), '(L' + ''.join(' (T %s %s)' % (enc(a), enc(k)) for a, k in hist) + ')')
-    return dict(tag='stack history %s len=%d%s%s' % ('with cache' if with_cache else 'without cache', len(hist),
-                                                    ' ndarray arguments' if arrays else '', ' raising' if 'raising' in kinds else ''), lines=[line])
+    return dict(tag='stack history %s len=%d%s%s%s' % ('with cache' if with_cache else 'without cache', len(hist),
+                                                      ' ndarray arguments' if arrays else '', ' raising' if 'raising' in kinds else '',
+                                                      ' dict/list-subclass arguments%s' % (' pd2np' if 'pd2np' in classes else '') if subclasses else ''), lines=[line])
 
 
 def gen_steps(rng):
@@ -581,6 +617,8 @@ def generate(rng, tier):
         yield gen_cache(rng, raising=rng.random() < 0.2, unhashable=True)
     for _ in range(600 if q else 12000):
         yield gen_stackhist(rng)
+    for _ in range(150 if q else 3000):
+        yield gen_stackhist(rng, subclasses=True)
     for _ in range(300 if q else 6000):
         yield gen_steps(rng)
     for _ in range(400 if q else 8000):
@@ -944,29 +982,53 @@ def laws(rng, tier, ctx):
     # (2b) arguments that are not scalars: int / float ndarrays (also inside a list), namedtuples, lists, dicts - through every single
     # decorator and random stacks.  pd2np turns int arrays into float arrays before calling f (documented: "will also convert int
     # numpy arrays into floaters") - known finding K6, recognised precisely: the result is f's result on the converted arguments
-    import numpy as np, collections
+    import numpy as np, pandas as pd
     P2 = collections.namedtuple('P2', ['x', 'y'])
 
     def show(v):
         if isinstance(v, np.ndarray):
             return 'array(%s, %s)' % (v.tolist(), v.dtype)
+        if isinstance(v, (pd.Series, pd.DataFrame)):
+            return '%s(%s, %s, index=%s)' % (type(v).__name__, v.values.tolist(), list(map(str, np.atleast_1d(v.dtypes))), list(v.index))
         if isinstance(v, dict):
-            return '{%s}' % ', '.join('%r: %s' % (k, show(x)) for k, x in v.items())
+            extra = ('default_factory=%r ' % v.default_factory if isinstance(v, collections.defaultdict) else '') + ('extra=%r ' % getattr(v, 'extra', None) if isinstance(v, D2) else '')
+            return '%s{%s%s}' % ('' if type(v) is dict else type(v).__name__, extra, ', '.join('%r: %s' % (k, show(x)) for k, x in v.items()))
         if isinstance(v, (list, tuple)):
             return '%s(%s)' % (type(v).__name__, ', '.join(show(x) for x in v))
         return repr(v)
 
     def i2f(v):
-        if isinstance(v, np.ndarray) and v.dtype in (np.dtype(np.int16), np.dtype(np.int32), np.dtype(np.int64)):       # what the docstring of K6 covers: int8 / uint arrays stay as they are
+        """what the docstring of pd2np / K6 covers: int16 / int32 / int64 arrays - and Series, and the int columns of a DataFrame (`_int2float`
+        treats them alike, round j6) - become float, at any depth of list / tuple / dict; int8 / uint arrays stay as they are.  A container
+        none of whose members changes is the argument ITSELF; otherwise a copy of it with the changed members (class and attributes kept)"""
+        ints = (np.dtype(np.int16), np.dtype(np.int32), np.dtype(np.int64))
+        if isinstance(v, (np.ndarray, pd.Series)) and v.dtype in ints:
             return v.astype(float)
+        if isinstance(v, pd.DataFrame):
+            cols = {c: float for c, t in dict(v.dtypes).items() if t in ints}
+            return v.astype(cols) if cols else v
         if isinstance(v, dict):
-            return {k: i2f(x) for k, x in v.items()}
+            r = {k: i2f(x) for k, x in v.items()}
+            if all(r[k] is v[k] for k in v):
+                return v
+            c = copy.copy(v)
+            c.update(r)
+            return c
         if isinstance(v, (list, tuple)):
-            return type(v)(*[i2f(x) for x in v]) if hasattr(v, '_fields') else type(v)([i2f(x) for x in v])
+            r = [i2f(x) for x in v]
+            if all(x is y for x, y in zip(r, v)):
+                return v
+            return type(v)(*r) if hasattr(v, '_fields') else type(v)(r)
         return v
     specials = [lambda: np.array([1, 2]), lambda: np.array([1.5, 2.5]), lambda: [np.array([1, 2]), 3], lambda: P2(1, 2), lambda: P2(np.array([3]), 'x'),
                 lambda: {'k': np.array([1, 2])}, lambda: [1, [2, 3]], lambda: {'p': 1}, lambda: np.array([1, 2], dtype=np.int8), lambda: np.array([1, 2], dtype=np.uint16),
-                lambda: np.array([1, 2], dtype=np.int32)]
+                lambda: np.array([1, 2], dtype=np.int32),
+                # round j6: dict / list subclasses whose constructor is not "one mapping / one iterable"
+                lambda: collections.defaultdict(int, x=1), lambda: collections.Counter('aab'), lambda: D2({'x': 1}, 'e'), lambda: L1(3),
+                lambda: [collections.defaultdict(int, x=1), 2], lambda: {'k': L1(2)}, lambda: (D2({'x': 1}, 'e'),), lambda: collections.OrderedDict(b=1, a=2),
+                # round j6: pandas objects as NON-first arguments of pd2np (int Series / int columns are converted like int arrays: K6)
+                lambda: pd.Series([1, 2]), lambda: pd.Series([1.5, 2.5]), lambda: pd.DataFrame({'a': [1, 2], 'b': [1.5, 2.5]}), lambda: [pd.Series([1, 2], dtype=np.int32), 3],
+                lambda: collections.defaultdict(int, x=np.array([1, 2]))]
     for sig, args, kw in rng.sample(allcalls, 150 if tier == 'quick' else len(allcalls)):
         if not args and not kw:
             continue
@@ -991,6 +1053,9 @@ def laws(rng, tier, ctx):
             for cls, params in ds:
                 g = construct(cls, params, g)
             a, k = build()
+            if any(c == 'pd2np' for c, _ in ds) and isinstance(first_arg(sig, a, k), (pd.Series, pd.DataFrame)):
+                count -= 1
+                continue          # pd2np on PANDAS input (the first argument decides): outside "pd2np on non-pandas input"
             direct = show(res_val(lambda: f(*a, **k)))
             a, k = build()
             got = show(res_val(lambda: g(*a, **k)))
